@@ -16,10 +16,10 @@ const (
 // of closed rings (first = shell), lines, isolated points. It is read from the
 // library only through public accessors.
 type Shape struct {
-	Polys [][][]Pt
-	Lines [][]Pt
-	Pts   []Pt
-	bnd   map[[2]float64][]bndEntry // endpoint parity (mod-2 rule)
+	Polys  [][][]Pt
+	Lines  [][]Pt
+	Pts    []Pt
+	bnd    map[[2]float64][]bndEntry // endpoint parity (mod-2 rule)
 	Finite bool
 }
 
